@@ -92,37 +92,31 @@ theorem scale_scalar_untouched (sd : List Rat → Rat) (cfg : Cfg) (rows : List 
     (scaleScalar sd cfg rows).length = rows.length :=
   ⟨fun i v hv hn => scale_scalar_untouched' sd cfg rows i v hv hn, scale_scalar_length' sd cfg rows⟩
 
-/- theorem scale_sparse_eq_spec_full: the same without `hpot` (i.e. also for keys that first occur after the
-   window).  False for the code: see `scale_sparse_key_outside_window_counterexample` (finding C11-F9). -/
-/-- sparse contexts (shift 0), statistics over the window with an absent key counting as 0.
-Partial: the key must occur in the fitting window (and not hold a string in the first interaction) —
-this is `hpot` -/
-theorem scale_sparse_eq_spec_partial (sd : List Rat → Rat) (cfg : Cfg) (rows : List SCtx) (first : SCtx)
+/-- sparse contexts (shift 0), statistics over the window with an absent key counting as 0 — for EVERY key whose
+first-interaction value is not a string (`hpot`), whether or not it occurs in the fitting window: a key absent
+from the whole window has an all-zero window column (full strength since fix C11-scale-sparse-key-outside-window) -/
+theorem scale_sparse_eq_spec (sd : List Rat → Rat) (cfg : Cfg) (rows : List SCtx) (first : SCtx)
     (i : Nat) (k : String) (v : Val)
     (hfirst : rows.head? = some first) (h0 : cfg.shift = .num 0)
     (hv : sparseCell rows i k = some v)
-    (hpot : potSparse first (window cfg.usingN rows) k = true)
+    (hpot : potSparse first k = true)
     (hstr : ((window cfg.usingN rows).map (getD0 k)).any Val.isStr = false)
     (hdef : StatsDefined cfg ((window cfg.usingN rows).map (getD0 k))) :
     ∃ outs out, scaleSparse sd cfg rows = .ok outs ∧ sparseCell outs i k = some out ∧
       ScaleCellSpec sd cfg ((window cfg.usingN rows).map (getD0 k)) v out :=
   scale_sparse_eq_spec' sd cfg rows first i k v hfirst h0 hv hpot hstr hdef
 
+/-- the former finding C11-F9 as an instance: `Scale(0, 2, using=1)` on `{a:1},{b:3}` scales `b` -/
+example : ∃ outs out, scaleSparse (fun _ => 1) ⟨.num 0, .num 2, some 1⟩ [[("a", .num 1)], [("b", .num 3)]] = .ok outs ∧
+    sparseCell outs 1 "b" = some out ∧
+    ScaleCellSpec (fun _ => 1) ⟨.num 0, .num 2, some 1⟩ [.num 0] (.num 3) out :=
+  scale_sparse_eq_spec _ _ _ [("a", .num 1)] 1 "b" (.num 3) rfl rfl rfl (by decide) (by decide) ⟨trivial, trivial⟩
+
 example : ∃ outs out, scaleSparse (fun _ => 1) ⟨.num 0, .maxabs, some 2⟩ [[("a", .num 1)], [("b", .num 4)], [("b", .num 2)]] = .ok outs ∧
     sparseCell outs 2 "b" = some out ∧
     ScaleCellSpec (fun _ => 1) ⟨.num 0, .maxabs, some 2⟩ [.num 0, .num 4] (.num 2) out :=
-  scale_sparse_eq_spec_partial _ _ _ [("a", .num 1)] 2 "b" (.num 2) rfl rfl rfl (by decide) (by decide)
+  scale_sparse_eq_spec _ _ _ [("a", .num 1)] 2 "b" (.num 2) rfl rfl rfl (by decide) (by decide)
     ⟨trivial, by simp [nums, Val.num?, getD0, window, List.lookup]⟩
-
-/-- finding C11-F9: `Scale(0, 2, using=1)` on `{a:1},{b:3}` leaves `b = 3` although the documented value
-(given numbers need no window) is 6 — so `hpot` above cannot be dropped -/
-theorem scale_sparse_key_outside_window_counterexample :
-    let cfg : Cfg := ⟨.num 0, .num 2, some 1⟩
-    let rows : List SCtx := [[("a", .num 1)], [("b", .num 3)]]
-    ∀ sd : List Rat → Rat,
-      (∃ outs, scaleSparse sd cfg rows = .ok outs ∧ sparseCell outs 1 "b" = some (.num 3)) ∧
-      (∀ out, ScaleCellSpec sd cfg ((window cfg.usingN rows).map (getD0 "b")) (.num 3) out → out = .num 6) :=
-  scale_key_outside_window_witness
 
 /-- sparse contexts: non-numbers are untouched, no key appears or disappears, and a non-zero shift is rejected -/
 theorem scale_sparse_untouched (sd : List Rat → Rat) (cfg : Cfg) (rows : List SCtx) (first : SCtx)
@@ -138,17 +132,16 @@ theorem scale_sparse_untouched (sd : List Rat → Rat) (cfg : Cfg) (rows : List 
    fun h0 => scale_sparse_rejects' sd cfg rows (by intro h; simp [h] at hfirst) h0⟩
 
 /-- the three kinds of context agree: scalar contexts behave as dense contexts with one feature, and a
-sparse context behaves as its dense embedding (absent key = 0) on every key that occurs in the window -/
+sparse context behaves as its dense embedding (absent key = 0) on every key -/
 theorem scale_containers_agree (sd : List Rat → Rat) (cfg : Cfg) :
     (∀ rows : List Val, cfg.usingN ≠ some 0 →
       scaleDense sd cfg (rows.map (fun v => [v])) = (scaleScalar sd cfg rows).map (fun v => [v])) ∧
     (∀ (rows : List SCtx) (first : SCtx) (keys : List String) (i j : Nat) (k : String) (v : Val),
       rows.head? = some first → cfg.shift = .num 0 → keys[j]? = some k → sparseCell rows i k = some v →
-      (window cfg.usingN rows).any (hasKey k) = true →
       ∃ outs, scaleSparse sd cfg rows = .ok outs ∧
         sparseCell outs i k = denseCell (scaleDense sd cfg (rows.map (embed keys))) i j) :=
   ⟨fun rows hu => scale_scalar_dense_agree' sd cfg rows hu,
-   fun rows first keys i j k v hf h0 hk hv ho => scale_sparse_dense_agree' sd cfg rows first keys i j k v hf h0 hk hv ho⟩
+   fun rows first keys i j k v hf h0 hk hv => scale_sparse_dense_agree' sd cfg rows first keys i j k v hf h0 hk hv⟩
 
 /-! ## the fitting window -/
 
@@ -194,40 +187,42 @@ theorem imputation_spec (st : Stat) (w : List Val) :
     (∀ m, getImp st w = some m → ImpStat st (present w) m) ∧ (Imputable st w → ∃ m, getImp st w = some m) :=
   ⟨fun _ h => getImp_sound h, getImp_isSome⟩
 
-/-- dense contexts: every missing value (`None`) of an imputable feature — wherever it is, including the first
-interaction — is replaced by that feature's statistic over the window -/
+/-- dense contexts: every missing value (`None` or `nan`) of an imputable feature — wherever it is, including the
+first interaction — is replaced by that feature's statistic over the non-missing values of the window -/
 theorem impute_eq_spec (st : Stat) (ind : Bool) (u : Option Nat) (rows : List (List Val)) (first : List Val)
-    (i k : Nat) (hfirst : rows.head? = some first) (hu : u ≠ some 0) (hk : k < first.length)
-    (hv : denseCell rows i k = some .nil)
+    (i k : Nat) (v : Val) (hfirst : rows.head? = some first) (hu : u ≠ some 0) (hk : k < first.length)
+    (hv : denseCell rows i k = some v) (hmiss : v.isMiss = true)
     (himp : Imputable st (col k (window u rows))) :
     ∃ m, denseCell (imputeDense st ind u rows) i k = some m ∧ ImpStat st (present (col k (window u rows))) m :=
-  impute_dense_eq_spec' st ind u rows first i k hfirst hu hk hv himp
+  impute_dense_eq_spec' st ind u rows first i k v hfirst hu hk hv hmiss himp
 
-example : ∃ m, denseCell (imputeDense .mean true none [[.nil], [.num 2], [.num 4]]) 0 0 = some m ∧
-    ImpStat .mean (present [.nil, .num 2, .num 4]) m :=
-  impute_eq_spec .mean true none _ [.nil] 0 0 rfl (by simp) (by simp) rfl ⟨by decide, by decide⟩
+example : ∃ m, denseCell (imputeDense .mean true none [[.nil], [.num 2], [.nan], [.num 4]]) 2 0 = some m ∧
+    ImpStat .mean (present [.nil, .num 2, .nan, .num 4]) m :=
+  impute_eq_spec .mean true none _ [.nil] 2 0 .nan rfl (by simp) (by simp) rfl rfl ⟨by decide, by decide⟩
 
-/-- no non-missing value is changed or moved (dense and sparse contexts; scalar: `impute_scalar_spec`) -/
+/-- no non-missing value is changed or moved (dense and sparse contexts; scalar: `impute_scalar_spec`).  For sparse
+contexts the key must not itself be the indicator name `<b>_is_missing` of a window key `b`: the code writes the
+indicators with `dict.update`, which overwrites such a feature (seen by the correspondence check on two-pass lists) -/
 theorem impute_nonmissing_fixed (st : Stat) (ind : Bool) (u : Option Nat) :
-    (∀ (rows : List (List Val)) i k v, denseCell rows i k = some v → v ≠ .nil →
+    (∀ (rows : List (List Val)) i k v, denseCell rows i k = some v → v.isMiss = false →
       denseCell (imputeDense st ind u rows) i k = some v) ∧
-    (∀ (rows : List SCtx) i k v, sparseCell rows i k = some v → v ≠ .nil →
+    (∀ (rows : List SCtx) i k v, sparseCell rows i k = some v → v.isMiss = false →
+      (∀ b ∈ sparseBins ind (window u rows), b ++ "_is_missing" ≠ k) →
       sparseCell (imputeSparse st ind u rows) i k = some v) :=
   ⟨fun rows i k v hv hn => impute_dense_nonmissing_fixed' st ind u rows i k v hv hn,
-   fun rows i k v hv hn => impute_sparse_nonmissing_fixed' st ind u rows i k v hv hn⟩
+   fun rows i k v hv hn hf => impute_sparse_nonmissing_fixed' st ind u rows i k v hv hn hf⟩
 
 /-- the missingness indicators: each result row is the (imputed) features followed by exactly one 0/1 feature
-per imputable column that has a missing value in the window (none when `indicator=False`), in column order;
-the indicator is 1 iff the row's own value in that column was missing -/
+per column that has a missing value (`None`/`nan`) in the window — imputable or not, as for scalar contexts —
+(none when `indicator=False`), in column order; the indicator is 1 iff the row's own value in that column was missing -/
 theorem impute_indicator (st : Stat) (ind : Bool) (u : Option Nat) (rows : List (List Val)) (first row : List Val)
     (i : Nat) (hfirst : rows.head? = some first) (hrow : rows[i]? = some row) :
     ∃ out, (imputeDense st ind u rows)[i]? = some out ∧
-      out.length = row.length + (denseBins st ind first (window u rows)).length ∧
-      (∀ j k, (denseBins st ind first (window u rows))[j]? = some k →
-        out[row.length + j]? = some (bit (row[k]? == some Val.nil))) ∧
-      (∀ k, k ∈ denseBins st ind first (window u rows) ↔
-        (ind = true ∧ k < first.length ∧ (denseImp st first (window u rows) k).isSome = true ∧
-          (col k (window u rows)).any Val.isNil = true)) :=
+      out.length = row.length + (denseBins ind first (window u rows)).length ∧
+      (∀ j k, (denseBins ind first (window u rows))[j]? = some k →
+        out[row.length + j]? = some (bit (missAt row[k]?))) ∧
+      (∀ k, k ∈ denseBins ind first (window u rows) ↔
+        (ind = true ∧ k < first.length ∧ (col k (window u rows)).any Val.isMiss = true)) :=
   impute_dense_indicator' st ind u rows first row i hfirst hrow
 
 theorem impute_no_indicator (st : Stat) (u : Option Nat) (rows : List (List Val)) :
@@ -238,52 +233,58 @@ theorem impute_no_indicator (st : Stat) (u : Option Nat) (rows : List (List Val)
 /-- scalar contexts: the result is the list of imputed scalars, or of `[value, indicator]` pairs when
 `indicator=True` and the window has a missing value; a missing value becomes the window statistic -/
 theorem impute_scalar_spec (st : Stat) (ind : Bool) (u : Option Nat) (rows : List Val) :
-    ((ind && (window u rows).any Val.isNil) = false →
+    ((ind && (window u rows).any Val.isMiss) = false →
       imputeScalar st ind u rows = .scalars (rows.map (imputeCell (getImp st (window u rows))))) ∧
-    ((ind && (window u rows).any Val.isNil) = true →
-      imputeScalar st ind u rows = .pairs (rows.map (fun v => [imputeCell (getImp st (window u rows)) v, bit v.isNil]))) ∧
-    (∀ v, (v ≠ .nil → imputeCell (getImp st (window u rows)) v = v) ∧
-      (v = .nil → Imputable st (window u rows) →
+    ((ind && (window u rows).any Val.isMiss) = true →
+      imputeScalar st ind u rows = .pairs (rows.map (fun v => [imputeCell (getImp st (window u rows)) v, bit v.isMiss]))) ∧
+    (∀ v, (v.isMiss = false → imputeCell (getImp st (window u rows)) v = v) ∧
+      (v.isMiss = true → Imputable st (window u rows) →
         ∃ m, imputeCell (getImp st (window u rows)) v = m ∧ ImpStat st (present (window u rows)) m)) :=
   ⟨impute_scalar_spec' st ind u rows, impute_scalar_indicator' st ind u rows, fun v => imputeCell_spec st _ v⟩
 
-/- theorem impute_sparse_eq_spec_full: the same without `hkey`.  False for the code: see
-   `impute_sparse_key_outside_window_counterexample` (finding C11-F10). -/
-/-- sparse contexts, statistics over the window with an absent key counting as 0.  Partial: the key must occur
-in the window (`hkey`) -/
-theorem impute_sparse_eq_spec_partial (st : Stat) (ind : Bool) (u : Option Nat) (rows : List SCtx) (first : SCtx)
-    (i : Nat) (k : String) (hfirst : rows.head? = some first)
-    (hv : sparseCell rows i k = some .nil)
-    (hkey : impSparseKey st first (window u rows) k = true)
-    (himp : Imputable st (sparseCol k (window u rows))) :
+/-- sparse contexts, statistics over the window with an absent key counting as 0 — for every key that is imputable
+by the statistic (`hkey`: not a string in the first interaction for mean/median), whether or not it occurs in the
+window (full strength since fix C11-impute-sparse-key-outside-window) -/
+theorem impute_sparse_eq_spec (st : Stat) (ind : Bool) (u : Option Nat) (rows : List SCtx) (first : SCtx)
+    (i : Nat) (k : String) (v : Val) (hfirst : rows.head? = some first)
+    (hv : sparseCell rows i k = some v) (hmiss : v.isMiss = true)
+    (hkey : impSparseKey st first k = true)
+    (himp : Imputable st (sparseCol k (window u rows)))
+    (hfresh : ∀ b ∈ sparseBins ind (window u rows), b ++ "_is_missing" ≠ k) :
     ∃ m, sparseCell (imputeSparse st ind u rows) i k = some m ∧
       ImpStat st (present (sparseCol k (window u rows))) m :=
-  impute_sparse_eq_spec' st ind u rows first i k hfirst hv hkey himp
+  impute_sparse_eq_spec' st ind u rows first i k v hfirst hv hmiss hkey himp hfresh
 
 example : ∃ m, sparseCell (imputeSparse .median false none [[("a", .nil)], [("a", .num 2)], []]) 0 "a" = some m ∧
     ImpStat .median (present (sparseCol "a" [[("a", .nil)], [("a", .num 2)], []])) m :=
-  impute_sparse_eq_spec_partial .median false none _ [("a", .nil)] 0 "a" rfl rfl (by decide) ⟨by decide, by decide⟩
+  impute_sparse_eq_spec .median false none _ [("a", .nil)] 0 "a" .nil rfl rfl rfl (by decide) ⟨by decide, by decide⟩
+    (by simp [sparseBins])
 
-/-- finding C11-F10: `Impute('mean', using=1)` on `{a:1},{b:None}` keeps the `None` although the window
-statistic of `b` (absent = 0) is 0 — so `hkey` above cannot be dropped -/
-theorem impute_sparse_key_outside_window_counterexample :
-    let rows : List SCtx := [[("a", .num 1)], [("b", .nil)]]
-    sparseCell (imputeSparse .mean false (some 1) rows) 1 "b" = some .nil ∧
-    (∀ m, ImpStat .mean (present (sparseCol "b" (window (some 1) rows))) m → m = .num 0) :=
-  impute_key_outside_window_witness
+/-- the former finding C11-F10 as an instance: `Impute('mean', using=1)` on `{a:1},{b:None}` imputes the window
+statistic of `b` (absent = 0) -/
+example : ∃ m, sparseCell (imputeSparse .mean false (some 1) [[("a", .num 1)], [("b", .nil)]]) 1 "b" = some m ∧
+    ImpStat .mean (present (sparseCol "b" [[("a", .num 1)]])) m :=
+  impute_sparse_eq_spec .mean false (some 1) _ [("a", .num 1)] 1 "b" .nil rfl rfl rfl (by decide) ⟨by decide, by decide⟩
+    (by simp [sparseBins])
 
-/-- sparse contexts: a result row is the (imputed) context followed by one `<key>_is_missing` 0/1 entry per
-imputable key that occurs with a missing value in the window; 1 iff this row's value under the key was missing -/
+/-- sparse contexts: a result row is the (imputed) context into which one `<key>_is_missing` 0/1 entry per key with a
+missing value (`None`/`nan`) in the window is written (`dict.update`: appended, or overwriting an entry of that name);
+every such entry is present and is the missingness bit of this row under a window key with that indicator name -/
 theorem impute_sparse_indicator (st : Stat) (ind : Bool) (u : Option Nat) (rows : List SCtx) (first c : SCtx)
     (i : Nat) (hfirst : rows.head? = some first) (hrow : rows[i]? = some c) :
     (imputeSparse st ind u rows)[i]? = some
-      (c.map (fun kv => (kv.1, imputeCell (sparseImp st first (window u rows) kv.1) kv.2))
-        ++ (sparseBins st ind first (window u rows)).map
-            (fun k => (k ++ "_is_missing", bit (c.lookup k == some Val.nil)))) ∧
-    (∀ k, k ∈ sparseBins st ind first (window u rows) ↔
-      (ind = true ∧ (window u rows).any (hasKey k) = true ∧ (sparseImp st first (window u rows) k).isSome = true ∧
-        ((window u rows).filterMap (fun c => c.lookup k)).any Val.isNil = true)) :=
-  impute_sparse_indicator' st ind u rows first c i hfirst hrow
+      ((sparseBins ind (window u rows)).foldl
+        (fun acc k => upsert acc (k ++ "_is_missing") (bit (missAt (c.lookup k))))
+        (c.map (fun kv => (kv.1, imputeCell (sparseImp st first (window u rows) kv.1) kv.2)))) ∧
+    (∀ k, k ∈ sparseBins ind (window u rows) ↔
+      (ind = true ∧ (window u rows).any (hasKey k) = true ∧
+        ((window u rows).filterMap (fun c => c.lookup k)).any Val.isMiss = true)) ∧
+    (∀ b ∈ sparseBins ind (window u rows), ∃ b' ∈ sparseBins ind (window u rows),
+      b' ++ "_is_missing" = b ++ "_is_missing" ∧
+      (imputeSparseRow st ind first (window u rows) c).lookup (b ++ "_is_missing") = some (bit (missAt (c.lookup b')))) :=
+  ⟨(impute_sparse_indicator' st ind u rows first c i hfirst hrow).1,
+   (impute_sparse_indicator' st ind u rows first c i hfirst hrow).2,
+   fun b hb => impute_sparse_indicator_value' st ind first _ c b hb⟩
 
 /-- `Environments.impute(stats)`: the statistics of a list are applied one after the other, each to the
 result of the previous one -/
@@ -291,5 +292,81 @@ theorem impute_list_sequential (st : Stat) (stats : List Stat) (ind : Bool) (u :
     envImpute [] ind u c = c ∧
     envImpute (st :: stats) ind u c = envImpute stats ind u (imputeCtxs st ind u c) :=
   ⟨rfl, rfl⟩
+
+/-! ## `std` characterised inside ℚ (no abstract square-root function in the conclusion) -/
+
+/-- the sample variance the reciprocal square root is taken of is non-negative -/
+theorem variance_nonneg_spec (xs : List Rat) (h : 2 ≤ xs.length) : 0 ≤ variance xs := variance_nonneg xs h
+
+/-- there is at most one non-negative `f` with `f²·v = 1` -/
+theorem invSqrt_unique (v f g : Rat) (hf : IsInvSqrt v f) (hg : IsInvSqrt v g) : f = g := invSqrt_unique' hf hg
+
+/-- the 1e-6 guard on the deviation is the 1e-12 guard on the variance -/
+theorem std_guard_iff (sd : List Rat → Rat) (xs : List Rat) (h : SqrtExact sd xs) :
+    sd xs < 1 / 1000000 ↔ variance xs < 1 / 1000000000000 := guard_iff_variance h
+
+/-- `_get_shift_and_scale` with every statistic characterised without a function parameter: when the square-root
+routine is exact on the window's numbers (hypothesis only for `std`), the scale for `std` is THE non-negative `f`
+with `f²·var = 1` (var = sample variance, `n−1`), or 1 below the guard -/
+theorem fit_eq_spec_q (sd : List Rat → Rat) (cfg : Cfg) (w : List Val) (s f : Rat) (h : fit sd cfg w = some (s, f))
+    (hx : cfg.scale = .std → SqrtExact sd (nums w)) :
+    ShiftStat cfg.shift (nums w) s ∧ ScaleStatQ cfg.scale (nums w) s f := fit_sound_q h hx
+
+example : SqrtExact (fun _ => 2) [1, 3, 5] := by
+  refine ⟨by norm_num, ?_⟩
+  simp [variance, sumL]
+  norm_num
+
+/-- for a square-root routine with relative error `δ` (`sd² = var·(1+δ)`, e.g. IEEE `sqrt`: |δ| ≤ 2^-51) the scale
+for `std` satisfies `f²·var·(1+δ) = 1` exactly -/
+theorem std_scale_within (sd : List Rat → Rat) (xs : List Rat) (s f δ : Rat) (hx : SqrtWithin sd xs δ)
+    (hg : ¬ sd xs < 1 / 1000000) (h : ScaleStat sd .std xs s f) :
+    0 ≤ f ∧ f * f * variance xs * (1 + δ) = 1 := std_scale_within' sd xs s f δ hx hg h
+
+/-- every cell theorem above transfers: a cell meeting `ScaleCellSpec sd` meets the parameter-free `ScaleCellSpecQ` -/
+theorem scale_cell_spec_q (sd : List Rat → Rat) (cfg : Cfg) (w : List Val) (v out : Val)
+    (h : ScaleCellSpec sd cfg w v out) (hx : cfg.scale = .std → SqrtExact sd (nums w)) :
+    ScaleCellSpecQ cfg w v out := cellSpec_to_Q h hx
+
+/-- dense contexts, parameter-free form of `scale_eq_spec` -/
+theorem scale_eq_spec_q (sd : List Rat → Rat) (cfg : Cfg) (rows : List (List Val)) (first : List Val)
+    (i k : Nat) (v : Val)
+    (hfirst : rows.head? = some first) (hv : denseCell rows i k = some v)
+    (hpot : potDense first k = true)
+    (hstr : (col k (window cfg.usingN rows)).any Val.isStr = false)
+    (hdef : StatsDefined cfg (col k (window cfg.usingN rows)))
+    (hx : cfg.scale = .std → SqrtExact sd (nums (col k (window cfg.usingN rows)))) :
+    ∃ out, denseCell (scaleDense sd cfg rows) i k = some out ∧
+      ScaleCellSpecQ cfg (col k (window cfg.usingN rows)) v out :=
+  let ⟨out, h1, h2⟩ := scale_dense_eq_spec' sd cfg rows first i k v hfirst hv hpot hstr hdef
+  ⟨out, h1, cellSpec_to_Q h2 hx⟩
+
+/-! ## one filter object on several sequences; collections of environments -/
+
+/-- a `Scale`/`Impute` object keeps no fitted state: whatever sequences it filtered before (and whatever its
+`_times` bookkeeping has become), its result on sequence `b` is the result of a fresh object on `b` alone -/
+theorem filter_stateless {κ α β : Type} (f : κ → α → β) (o : Obj κ) (before : List (List Nat × α))
+    (dt : List Nat) (b : α) (times' : List Nat) :
+    ((Obj.run f o (before ++ [(dt, b)])).2).getLast? = some (f o.cfg b) ∧
+    ((Obj.run f o (before ++ [(dt, b)])).2).getLast? = some ((Obj.call f ⟨o.cfg, times'⟩ dt b).2) :=
+  filter_stateless' f o before dt b times'
+
+/-- all results of one object over a list of sequences are the pointwise results -/
+theorem filter_run_pointwise {κ α β : Type} (f : κ → α → β) (o : Obj κ) (calls : List (List Nat × α)) :
+    (Obj.run f o calls).1.cfg = o.cfg ∧ (Obj.run f o calls).2 = calls.map (fun c => f o.cfg c.2) :=
+  Obj.run_spec f o calls
+
+/-- `Environments([envA, envB, …]).scale(...)/.impute(...)`: reading the environments in any order, any number of
+times, each read returns the pipeline of the filters' functions applied to that environment's own interactions -/
+theorem collection_pointwise {κ : Type} (f : κ → Ctxs → Except Err Ctxs) (c : Coll κ) (order : List (List Nat × Nat)) :
+    (Coll.reads f c order).2 =
+      order.map (fun di => (c.srcs[di.2]?).map (fun src => pipe f (c.objs.map (·.cfg)) (.ok src))) :=
+  collection_pointwise' f c order
+
+/-- the pipelines of the two calls: one `Scale`; one `Impute` per statistic, i.e. `envImpute` -/
+theorem collection_pipelines (sd : List Rat → Rat) (cfg : Cfg) (stats : List Stat) (ind : Bool) (u : Option Nat) (c : Ctxs) :
+    pipe (scaleCtxs sd) [cfg] (.ok c) = scaleCtxs sd cfg c ∧
+    pipe imputeF (stats.map (fun st => (st, ind, u))) (.ok c) = .ok (envImpute stats ind u c) :=
+  ⟨pipe_scale sd cfg c, pipe_impute stats ind u c⟩
 
 end Coba.C11
